@@ -139,6 +139,19 @@ Section Walk.
     o = o' -> n = n' -> l = l' -> SegEq cmp o n l -> SegEq cmp o' n' l'.
   Proof. intros -> -> ->. exact (fun H => H). Qed.
 
+  Lemma SegEq_sub o n l : SegEq cmp o n l ->
+    forall o' n' l' k, o' = o + k -> n' = n + k -> k + l' <= l -> SegEq cmp o' n' l'.
+  Proof.
+    intros H o' n' l' k -> -> Hk t Ht.
+    replace (o + k + t) with (o + (k + t)) by lia. replace (n + k + t) with (n + (k + t)) by lia.
+    apply H. lia.
+  Qed.
+
+  Lemma SegEq_join o1 n1 l1 o2 n2 l2 :
+    SegEq cmp o1 n1 l1 -> SegEq cmp o2 n2 l2 -> o2 = o1 + l1 -> n2 = n1 + l1 ->
+    forall o n l, o = o1 -> n = n1 -> l = l1 + l2 -> SegEq cmp o n l.
+  Proof. intros H1 H2 -> -> o n l -> -> ->. apply SegEq_app; assumption. Qed.
+
   Definition OpOk (m : mode) (i j e : nat) (x : op) : Prop :=
     match x with
     | Equal o n l => o = i /\ n = j /\ SegEq cmp i j l
@@ -290,14 +303,671 @@ Section Zipper.
     cbn [Seg otot ntot dtot itot]. rewrite otot_rev, ntot_rev, etot_rev, dtot_rev, itot_rev.
     rewrite !Nat.add_assoc. tauto.
   Qed.
-  Goal forall o n l bef' io inn il aft r, up_step cmp repair (Equal o n l :: bef', Insert io inn il, aft) = Ok r -> False.
+
+  (* ---- local rewriting of a valid script ---- *)
+  Definition LocalStep (m : mode) (mid mid' : list op) : Prop :=
+    (forall i j e, Seg cmp m i j e mid -> Seg cmp m i j e mid') /\
+    otot mid' = otot mid /\ ntot mid' = ntot mid /\ etot mid' = etot mid /\
+    dtot mid' = dtot mid /\ itot mid' = itot mid /\
+    (Forall NonEmptyOp mid -> Forall NonEmptyOp mid').
+
+  Lemma LInv_local m D I pre mid mid' post :
+    LocalStep m mid mid' -> LInv m D I (pre ++ mid ++ post) -> LInv m D I (pre ++ mid' ++ post).
   Proof.
-    intros. cbn [up_step op_tag op_old_start op_old_end op_new_start op_new_end op_old_len op_new_len] in H.
-    Show.
-  Abort.
-  Goal forall o n l bef' io inn il aft r, up_step cmp repair (Delete o n l :: bef', Insert io inn il, aft) = Ok r -> False.
+    intros (Hseg & Ho & Hn & He & Hd & Hi & Hne) ((Hs & Eo & En) & Hnes & Ed & Ei).
+    unfold LInv, Valid.
+    rewrite !Seg_app in Hs. rewrite !Seg_app.
+    rewrite !otot_app, !ntot_app, !dtot_app, !itot_app, ?etot_app in *.
+    rewrite !Forall_app in Hnes. rewrite !Forall_app.
+    rewrite Ho, Hn, He, Hd, Hi.
+    destruct Hs as (Hs1 & Hs2 & Hs3). destruct Hnes as (N1 & N2 & N3).
+    repeat split; auto.
+  Qed.
+
+  Definition compat (m : mode) : Prop := (m = Exact -> repair = true) /\ (m = Low -> repair = false).
+
+  Definition swap_pair (a c : op) : op * op := if repair then repair_pair a c else (a, c).
+
+  (* Delete;Insert  ==>  Insert;Delete *)
+  Lemma local_swap_DI m dO dl dn io inn il :
+    compat m ->
+    LocalStep m [Delete dO dl dn; Insert io inn il]
+              [fst (swap_pair (Insert io inn il) (Delete dO dl dn));
+               snd (swap_pair (Insert io inn il) (Delete dO dl dn))].
   Proof.
-    intros. cbn [up_step op_tag op_old_start op_old_end op_new_start op_new_end op_old_len op_new_len] in H.
-    Show.
-  Abort.
+    intros [C1 C2]. unfold swap_pair.
+    destruct repair; cbn [repair_pair fst snd]; unfold LocalStep;
+      cbn [Seg OpOk otot ntot etot dtot itot op_old_len op_new_len elen dlen ilen].
+    - split.
+      + intros i j e ((-> & Hd) & (-> & Hi) & _).
+        destruct m; try (specialize (C2 eq_refl); discriminate);
+          cbn [del_ok ins_ok] in *; repeat split; lia.
+      + repeat split; try lia. intros H. inversion H as [|x1 r1 N1 H' ]; subst.
+        inversion H' as [|x2 r2 N2 _]; subst. repeat constructor; assumption.
+    - split.
+      + intros i j e ((-> & Hd) & (-> & Hi) & _).
+        destruct m; try (specialize (C1 eq_refl); discriminate);
+          cbn [del_ok ins_ok] in *; repeat split; lia.
+      + repeat split; try lia. intros H. inversion H as [|x1 r1 N1 H' ]; subst.
+        inversion H' as [|x2 r2 N2 _]; subst. repeat constructor; assumption.
+  Qed.
+
+  (* Insert;Delete  ==>  Delete;Insert *)
+  Lemma local_swap_ID m dO dl dn io inn il :
+    compat m ->
+    LocalStep m [Insert io inn il; Delete dO dl dn]
+              [fst (swap_pair (Delete dO dl dn) (Insert io inn il));
+               snd (swap_pair (Delete dO dl dn) (Insert io inn il))].
+  Proof.
+    intros [C1 C2]. unfold swap_pair.
+    destruct repair; cbn [repair_pair fst snd]; unfold LocalStep;
+      cbn [Seg OpOk otot ntot etot dtot itot op_old_len op_new_len elen dlen ilen].
+    - split.
+      + intros i j e ((-> & Hi) & (-> & Hd) & _).
+        destruct m; try (specialize (C2 eq_refl); discriminate);
+          cbn [del_ok ins_ok] in *; repeat split; lia.
+      + repeat split; try lia. intros H. inversion H as [|x1 r1 N1 H' ]; subst.
+        inversion H' as [|x2 r2 N2 _]; subst. repeat constructor; assumption.
+    - split.
+      + intros i j e ((-> & Hi) & (-> & Hd) & _).
+        destruct m; try (specialize (C1 eq_refl); discriminate);
+          cbn [del_ok ins_ok] in *; repeat split; lia.
+      + repeat split; try lia. intros H. inversion H as [|x1 r1 N1 H' ]; subst.
+        inversion H' as [|x2 r2 N2 _]; subst. repeat constructor; assumption.
+  Qed.
+  Ltac ne_tac :=
+    rewrite ?Forall_cons_iff; cbn [NonEmptyOp];
+    intuition (try apply Forall_nil; try lia).
+
+  Ltac segeq_tac :=
+    match goal with
+    | H : SegEq cmp ?o _ _ |- SegEq cmp ?o' _ _ => apply (SegEq_sub cmp _ _ _ H _ _ _ (o' - o)); lia
+    end.
+
+  Lemma local_merge_II m o1 n1 l1 o2 n2 l2 :
+    LocalStep m [Insert o1 n1 l1; Insert o2 n2 l2] [Insert o1 n1 (l1 + l2)].
+  Proof.
+    unfold LocalStep; cbn [Seg OpOk otot ntot etot dtot itot op_old_len op_new_len elen dlen ilen].
+    split; [|repeat split; try lia; ne_tac].
+    intros i j e ((-> & Hi) & _). auto.
+  Qed.
+
+  Lemma local_merge_DD m o1 l1 n1 o2 l2 n2 :
+    LocalStep m [Delete o1 l1 n1; Delete o2 l2 n2] [Delete o1 (l1 + l2) n1].
+  Proof.
+    unfold LocalStep; cbn [Seg OpOk otot ntot etot dtot itot op_old_len op_new_len elen dlen ilen].
+    split; [|repeat split; try lia; ne_tac].
+    intros i j e ((-> & Hd) & _). auto.
+  Qed.
+
+  Lemma local_drop m x : op_is_empty x = true -> LocalStep m [x] [].
+  Proof.
+    intros He. destruct (empty_op_true _ He) as [Ho Hn].
+    unfold LocalStep; cbn [Seg otot ntot etot dtot itot].
+    split; [auto|]. destruct x; cbn [op_old_len op_new_len elen dlen ilen] in *;
+      repeat split; try lia; intros; constructor.
+  Qed.
+
+  Definition push_ne (x : op) (l : list op) : list op := if op_is_empty x then l else x :: l.
+
+  (* Equal(o,n,l); Insert(io,inn,il)  with a common suffix s of the Equal's old
+     items and the Insert's new items  ==>
+     Equal(o,n,l-s); Insert(io-s,inn-s,il); Equal(o+l-s, inn+il-s, s) *)
+  Lemma local_slide_up_new m o n l io inn il s :
+    0 < s -> s <= l -> s <= il -> SegEq cmp (o + l - s) (inn + il - s) s ->
+    LocalStep m [Equal o n l; Insert io inn il]
+              (push_ne (Equal o n (l - s)) [Insert (io - s) (inn - s) il; Equal (o + l - s) (inn + il - s) s]).
+  Proof.
+    intros Hs Hl Hil Hsuf. unfold push_ne, op_is_empty. cbn [op_old_len op_new_len].
+    rewrite Bool.andb_diag.
+    destruct (l - s =? 0) eqn:E; [apply Nat.eqb_eq in E|apply Nat.eqb_neq in E];
+      unfold LocalStep; cbn [Seg OpOk otot ntot etot dtot itot op_old_len op_new_len elen dlen ilen].
+    - split; [|repeat split; try lia; ne_tac].
+      intros i j e ((-> & -> & Hseg) & (-> & Hi) & _).
+      repeat split; try lia.
+      + destruct m; cbn [ins_ok] in *; lia.
+      + segeq_tac.
+    - split; [|repeat split; try lia; ne_tac].
+      intros i j e ((-> & -> & Hseg) & (-> & Hi) & _).
+      repeat split; try lia.
+      + apply SegEq_prefix with (l := l); [lia|exact Hseg].
+      + destruct m; cbn [ins_ok] in *; lia.
+      + segeq_tac.
+  Qed.
+  (* ... and when the Insert is already followed by an Equal, that one grows
+     to the left instead *)
+  Lemma local_slide_up_grow m o n l io inn il xo xn xl s :
+    0 < s -> s <= l -> s <= il -> SegEq cmp (o + l - s) (inn + il - s) s ->
+    LocalStep m [Equal o n l; Insert io inn il; Equal xo xn xl]
+              (push_ne (Equal o n (l - s)) [Insert (io - s) (inn - s) il; Equal (xo - s) (xn - s) (xl + s)]).
+  Proof.
+    intros Hs Hl Hil Hsuf. unfold push_ne, op_is_empty. cbn [op_old_len op_new_len].
+    rewrite Bool.andb_diag.
+    destruct (l - s =? 0) eqn:E; [apply Nat.eqb_eq in E|apply Nat.eqb_neq in E];
+      unfold LocalStep; cbn [Seg OpOk otot ntot etot dtot itot op_old_len op_new_len elen dlen ilen].
+    - split; [|repeat split; try lia; ne_tac].
+      intros i j e ((-> & -> & Hseg) & (-> & Hi) & (-> & -> & Hx) & _).
+      repeat split; try lia.
+      + destruct m; cbn [ins_ok] in *; lia.
+      + apply (SegEq_join cmp _ _ _ _ _ _ Hsuf Hx); lia.
+    - split; [|repeat split; try lia; ne_tac].
+      intros i j e ((-> & -> & Hseg) & (-> & Hi) & (-> & -> & Hx) & _).
+      repeat split; try lia.
+      + apply (SegEq_sub cmp _ _ _ Hseg _ _ _ 0); lia.
+      + destruct m; cbn [ins_ok] in *; lia.
+      + apply (SegEq_join cmp _ _ _ _ _ _ Hsuf Hx); lia.
+  Qed.
+
+  (* Insert(io,inn,il); Equal(xo,xn,xl)  with a common prefix p of the Equal's
+     old items and the Insert's new items  ==>
+     Equal(xo,inn,p); Insert(io+p,inn+p,il); Equal(xo+p,xn+p,xl-p) *)
+  Lemma local_slide_down_new m io inn il xo xn xl p :
+    0 < p -> p <= xl -> p <= il -> SegEq cmp xo inn p ->
+    LocalStep m [Insert io inn il; Equal xo xn xl]
+              (Equal xo inn p :: Insert (io + p) (inn + p) il :: push_ne (Equal (xo + p) (xn + p) (xl - p)) []).
+  Proof.
+    intros Hp Hl Hil Hpre. unfold push_ne, op_is_empty. cbn [op_old_len op_new_len].
+    rewrite Bool.andb_diag.
+    destruct (xl - p =? 0) eqn:E; [apply Nat.eqb_eq in E|apply Nat.eqb_neq in E];
+      unfold LocalStep; cbn [Seg OpOk otot ntot etot dtot itot op_old_len op_new_len elen dlen ilen].
+    - split; [|repeat split; try lia; ne_tac].
+      intros i j e ((-> & Hi) & (-> & -> & Hx) & _).
+      repeat split; try lia.
+      + apply (SegEq_sub cmp _ _ _ Hpre _ _ _ 0); lia.
+      + destruct m; cbn [ins_ok] in *; lia.
+    - split; [|repeat split; try lia; ne_tac].
+      intros i j e ((-> & Hi) & (-> & -> & Hx) & _).
+      repeat split; try lia.
+      + apply (SegEq_sub cmp _ _ _ Hpre _ _ _ 0); lia.
+      + destruct m; cbn [ins_ok] in *; lia.
+      + apply (SegEq_sub cmp _ _ _ Hx _ _ _ p); lia.
+  Qed.
+
+  Lemma local_slide_down_grow m po pn pl io inn il xo xn xl p :
+    0 < p -> p <= xl -> p <= il -> SegEq cmp xo inn p ->
+    LocalStep m [Equal po pn pl; Insert io inn il; Equal xo xn xl]
+              (Equal po pn (pl + p) :: Insert (io + p) (inn + p) il :: push_ne (Equal (xo + p) (xn + p) (xl - p)) []).
+  Proof.
+    intros Hp Hl Hil Hpre. unfold push_ne, op_is_empty. cbn [op_old_len op_new_len].
+    rewrite Bool.andb_diag.
+    destruct (xl - p =? 0) eqn:E; [apply Nat.eqb_eq in E|apply Nat.eqb_neq in E];
+      unfold LocalStep; cbn [Seg OpOk otot ntot etot dtot itot op_old_len op_new_len elen dlen ilen].
+    - split; [|repeat split; try lia; ne_tac].
+      intros i j e ((-> & -> & Hq) & (-> & Hi) & (-> & -> & Hx) & _).
+      repeat split; try lia.
+      + apply (SegEq_join cmp _ _ _ _ _ _ Hq Hpre); lia.
+      + destruct m; cbn [ins_ok] in *; lia.
+    - split; [|repeat split; try lia; ne_tac].
+      intros i j e ((-> & -> & Hq) & (-> & Hi) & (-> & -> & Hx) & _).
+      repeat split; try lia.
+      + apply (SegEq_join cmp _ _ _ _ _ _ Hq Hpre); lia.
+      + destruct m; cbn [ins_ok] in *; lia.
+      + apply (SegEq_sub cmp _ _ _ Hx _ _ _ p); lia.
+  Qed.
+  (* ---- the two step functions in a canonical unfolded form ---- *)
+  Definition up_aft1 (X Y s : nat) (aft : list op) : res (list op) :=
+    match aft with
+    | nx :: aft' =>
+        if is_equal_op nx then (do nx' <- grow_left nx s; Ok (nx' :: aft'))
+        else do eo <- sub_chk X s; do en <- sub_chk Y s; Ok (Equal eo en s :: aft)
+    | [] => do eo <- sub_chk X s; do en <- sub_chk Y s; Ok [Equal eo en s]
+    end.
+
+  Lemma up_step_ins_eq o n l bef' io inn il aft :
+    up_step cmp repair (Equal o n l :: bef', Insert io inn il, aft) =
+    do s <- common_suffix_len cmp o (o + l) inn (inn + il);
+    if 0 <? s then
+      do aft1 <- up_aft1 (o + l) (inn + il) s aft;
+      do io' <- sub_chk io s;
+      do inn' <- sub_chk inn s;
+      do l' <- sub_chk l s;
+      Ok (Continue (push_ne (Equal o n l') bef', Insert io' inn' il, aft1))
+    else if op_is_empty (Equal o n l) then Ok (Continue (bef', Insert io inn il, aft))
+         else Ok (Break (Equal o n l :: bef', Insert io inn il, aft)).
+  Proof.
+    cbn [up_step op_tag op_old_start op_new_start]. unfold op_old_end, op_new_end.
+    cbn [op_old_start op_new_start op_old_len op_new_len].
+    destruct (common_suffix_len cmp o (o + l) inn (inn + il)) as [s| |]; cbn [bind]; try reflexivity.
+    destruct (0 <? s); [|reflexivity].
+    fold (up_aft1 (o + l) (inn + il) s aft).
+    destruct (up_aft1 (o + l) (inn + il) s aft) as [aft1| |]; cbn [bind]; try reflexivity.
+    cbn [shift_left shrink_left].
+    destruct (sub_chk io s) as [io'| |]; cbn [bind]; try reflexivity.
+    destruct (sub_chk inn s) as [inn'| |]; cbn [bind]; try reflexivity.
+    destruct (sub_chk l s) as [l'| |]; cbn [bind]; try reflexivity.
+    unfold push_ne. destruct (op_is_empty (Equal o n l')); reflexivity.
+  Qed.
+
+  (* P3, upward half: a Delete never slides *)
+  Lemma suffix_len_empty_new a c d : common_suffix_len cmp a c d (d + 0) = Ok 0.
+  Proof.
+    unfold common_suffix_len, empty_range. rewrite Nat.add_0_r, Nat.leb_refl, Bool.orb_true_r. reflexivity.
+  Qed.
+  Lemma prefix_len_empty_new a c d : common_prefix_len cmp a c d (d + 0) = Ok 0.
+  Proof.
+    unfold common_prefix_len, empty_range. rewrite Nat.add_0_r, Nat.leb_refl, Bool.orb_true_r. reflexivity.
+  Qed.
+
+  Lemma up_step_del_eq o n l bef' dO dl dn aft :
+    up_step cmp repair (Equal o n l :: bef', Delete dO dl dn, aft) =
+    if op_is_empty (Equal o n l) then Ok (Continue (bef', Delete dO dl dn, aft))
+    else Ok (Break (Equal o n l :: bef', Delete dO dl dn, aft)).
+  Proof.
+    cbn [up_step op_tag op_old_start op_new_start]. unfold op_old_end, op_new_end.
+    cbn [op_old_start op_new_start op_old_len op_new_len].
+    rewrite suffix_len_empty_new. cbn [bind Nat.eqb negb]. reflexivity.
+  Qed.
+
+  Definition down_bef1 (X Y p : nat) (bef : list op) : list op :=
+    match bef with
+    | pv :: bef' => if is_equal_op pv then grow_right pv p :: bef' else Equal X Y p :: bef
+    | [] => [Equal X Y p]
+    end.
+
+  Lemma down_step_ins_eq bef io inn il xo xn xl aft' :
+    down_step cmp repair (bef, Insert io inn il, Equal xo xn xl :: aft') =
+    do p <- common_prefix_len cmp xo (xo + xl) inn (inn + il);
+    if 0 <? p then
+      do l' <- sub_chk xl p;
+      Ok (Continue (down_bef1 xo inn p bef, Insert (io + p) (inn + p) il,
+                    push_ne (Equal (xo + p) (xn + p) l') aft'))
+    else if op_is_empty (Equal xo xn xl) then Ok (Continue (bef, Insert io inn il, aft'))
+         else Ok (Break (bef, Insert io inn il, Equal xo xn xl :: aft')).
+  Proof.
+    cbn [down_step op_tag op_old_start op_new_start]. unfold op_old_end, op_new_end.
+    cbn [op_old_start op_new_start op_old_len op_new_len].
+    destruct (common_prefix_len cmp xo (xo + xl) inn (inn + il)) as [p| |]; cbn [bind]; try reflexivity.
+    destruct (0 <? p); [|reflexivity].
+    fold (down_bef1 xo inn p bef). cbn [shift_right shrink_right].
+    destruct (sub_chk xl p) as [l'| |]; cbn [bind]; try reflexivity.
+    unfold push_ne. destruct (op_is_empty (Equal (xo + p) (xn + p) l')); reflexivity.
+  Qed.
+
+  (* P3, downward half *)
+  Lemma down_step_del_eq bef dO dl dn xo xn xl aft' :
+    down_step cmp repair (bef, Delete dO dl dn, Equal xo xn xl :: aft') =
+    if op_is_empty (Equal xo xn xl) then Ok (Continue (bef, Delete dO dl dn, aft'))
+    else Ok (Break (bef, Delete dO dl dn, Equal xo xn xl :: aft')).
+  Proof.
+    cbn [down_step op_tag op_old_start op_new_start]. unfold op_old_end, op_new_end.
+    cbn [op_old_start op_new_start op_old_len op_new_len].
+    rewrite prefix_len_empty_new. cbn [bind Nat.ltb Nat.leb]. reflexivity.
+  Qed.
+  (* ---- list shapes of zippers ---- *)
+  Lemma zlist_cons x bef' t aft : zlist (x :: bef', t, aft) = rev bef' ++ (x :: [t]) ++ aft.
+  Proof. cbn [zlist rev app]. rewrite <- app_assoc. reflexivity. Qed.
+
+  Lemma zlist_push_ne x bef' t mids aft :
+    zlist (push_ne x bef', t, mids ++ aft) = rev bef' ++ push_ne x (t :: mids) ++ aft.
+  Proof.
+    unfold push_ne. destruct (op_is_empty x); cbn [zlist rev app].
+    - reflexivity.
+    - rewrite <- app_assoc. reflexivity.
+  Qed.
+
+  Lemma push_ne_app x l : push_ne x l = push_ne x [] ++ l.
+  Proof. unfold push_ne. destruct (op_is_empty x); reflexivity. Qed.
+
+  Lemma up_aft1_inv X Y s aft aft1 :
+    up_aft1 X Y s aft = Ok aft1 ->
+    (exists xo xn xl aft', aft = Equal xo xn xl :: aft' /\
+                           aft1 = Equal (xo - s) (xn - s) (xl + s) :: aft' /\ s <= xo /\ s <= xn) \/
+    (aft1 = Equal (X - s) (Y - s) s :: aft /\ s <= X /\ s <= Y).
+  Proof.
+    unfold up_aft1. intros H.
+    assert (Hnew : (do eo <- sub_chk X s; do en <- sub_chk Y s; Ok (Equal eo en s :: aft)) = Ok aft1 ->
+                   aft1 = Equal (X - s) (Y - s) s :: aft /\ s <= X /\ s <= Y).
+    { intros H'. apply bind_ok_inv in H'. destruct H' as (eo & He & H').
+      apply bind_ok_inv in H'. destruct H' as (en & Hn & H').
+      apply sub_chk_inv in He. apply sub_chk_inv in Hn. destruct He as [? ->]. destruct Hn as [? ->].
+      injection H' as <-. auto. }
+    destruct aft as [|nx aft']; [right; apply Hnew; exact H|].
+    destruct nx as [xo xn xl| | |]; cbn [is_equal_op] in H; try (right; apply Hnew; exact H).
+    left. cbn [grow_left] in H.
+    apply bind_ok_inv in H. destruct H as (nx' & H1 & H). injection H as <-.
+    apply bind_ok_inv in H1. destruct H1 as (xo' & Ho & H1).
+    apply bind_ok_inv in H1. destruct H1 as (xn' & Hn & H1). injection H1 as <-.
+    apply sub_chk_inv in Ho. apply sub_chk_inv in Hn. destruct Ho as [? ->]. destruct Hn as [? ->].
+    exists xo, xn, xl, aft'. auto.
+  Qed.
+
+  Lemma ZInv_Replace_this m D I bef o ol n nl aft : ~ ZInv m D I (bef, Replace o ol n nl, aft).
+  Proof. intros H. apply ZInv_iff in H. destruct H as (_ & H & _). exact H. Qed.
+
+  Lemma ZInv_Replace_prev m D I bef o ol n nl t aft : ~ ZInv m D I (Replace o ol n nl :: bef, t, aft).
+  Proof. intros H. apply ZInv_iff in H. destruct H as (H & _). apply RSeg_cons in H. destruct H as [_ H]. exact H. Qed.
+
+  Lemma ZInv_Replace_next m D I bef o ol n nl t aft : ~ ZInv m D I (bef, t, Replace o ol n nl :: aft).
+  Proof. intros H. apply ZInv_iff in H. destruct H as (_ & _ & H & _). cbn [Seg OpOk] in H. tauto. Qed.
+
+  Lemma ZInv_prev_nonempty m D I x bef t aft : ZInv m D I (x :: bef, t, aft) -> op_is_empty x = false.
+  Proof.
+    intros H. apply ZInv_iff in H. destruct H as (_ & _ & _ & _ & _ & H & _).
+    apply Forall_cons_iff in H. apply nonempty_not_empty. tauto.
+  Qed.
+
+  Lemma ZInv_next_nonempty m D I x bef t aft : ZInv m D I (bef, t, x :: aft) -> op_is_empty x = false.
+  Proof.
+    intros H. apply ZInv_iff in H. destruct H as (_ & _ & _ & _ & _ & _ & _ & H & _).
+    apply Forall_cons_iff in H. apply nonempty_not_empty. tauto.
+  Qed.
+
+  (* ---- up_step preserves the invariant ---- *)
+  Lemma up_step_inv m D I z r :
+    compat m -> ZInv m D I z -> up_step cmp repair z = Ok r -> ZInv m D I (zof r).
+  Proof.
+    intros Hc Hz Hstep. destruct z as [[bef this] aft].
+    destruct bef as [|prev bef']; [cbn [up_step] in Hstep; injection Hstep as <-; exact Hz|].
+    destruct this as [to tn tl|to tl tn|to tn tl|to tol tn tnl];
+      [cbn [up_step op_tag] in Hstep; discriminate| | |exfalso; eapply ZInv_Replace_this; exact Hz];
+      (destruct prev as [po pn pl|po pl pn|po pn pl|po pol pn pnl];
+       [| | |exfalso; eapply ZInv_Replace_prev; exact Hz]).
+    - (* Delete / Equal: never slides *)
+      rewrite up_step_del_eq in Hstep. rewrite (ZInv_prev_nonempty _ _ _ _ _ _ _ Hz) in Hstep.
+      injection Hstep as <-. exact Hz.
+    - (* Delete / Delete: merge *)
+      cbn [up_step op_tag grow_right op_old_len] in Hstep. injection Hstep as <-. cbn [zof].
+      unfold ZInv in *. rewrite zlist_cons in Hz.
+      change (zlist (bef', Delete po (pl + tl) pn, aft)) with (rev bef' ++ [Delete po (pl + tl) pn] ++ aft).
+      eapply LInv_local; [apply local_merge_DD|exact Hz].
+    - (* Delete / Insert: swap *)
+      cbn [up_step op_tag] in Hstep.
+      fold (swap_pair (Delete to tl tn) (Insert po pn pl)) in Hstep.
+      destruct (swap_pair (Delete to tl tn) (Insert po pn pl)) as [this1 prev1] eqn:Esw.
+      injection Hstep as <-. cbn [zof].
+      unfold ZInv in *. rewrite zlist_cons in Hz.
+      change (zlist (bef', this1, prev1 :: aft)) with (rev bef' ++ [this1; prev1] ++ aft).
+      replace this1 with (fst (swap_pair (Delete to tl tn) (Insert po pn pl))) by (rewrite Esw; reflexivity).
+      replace prev1 with (snd (swap_pair (Delete to tl tn) (Insert po pn pl))) by (rewrite Esw; reflexivity).
+      eapply LInv_local; [apply local_swap_ID; exact Hc|exact Hz].
+    - (* Insert / Equal: slide *)
+      rewrite up_step_ins_eq in Hstep.
+      apply bind_ok_inv in Hstep. destruct Hstep as (s & Hs & Hstep).
+      apply common_suffix_len_spec in Hs. destruct Hs as (Hs1 & Hs2 & Hsuf & _).
+      destruct (0 <? s) eqn:E0.
+      + apply Nat.ltb_lt in E0.
+        apply bind_ok_inv in Hstep. destruct Hstep as (aft1 & Haft1 & Hstep).
+        apply bind_ok_inv in Hstep. destruct Hstep as (io' & Hio & Hstep).
+        apply bind_ok_inv in Hstep. destruct Hstep as (inn' & Hinn & Hstep).
+        apply bind_ok_inv in Hstep. destruct Hstep as (l' & Hl & Hstep).
+        apply sub_chk_inv in Hio. apply sub_chk_inv in Hinn. apply sub_chk_inv in Hl.
+        destruct Hio as [_ ->]. destruct Hinn as [_ ->]. destruct Hl as [_ ->].
+        injection Hstep as <-. cbn [zof].
+        unfold ZInv in *. rewrite zlist_cons in Hz.
+        apply up_aft1_inv in Haft1.
+        destruct Haft1 as [(xo & xn & xl & aft' & -> & -> & _)|(-> & _)].
+        * change (Equal (xo - s) (xn - s) (xl + s) :: aft') with ([Equal (xo - s) (xn - s) (xl + s)] ++ aft').
+          rewrite zlist_push_ne.
+          change ((Equal po pn pl :: [Insert to tn tl]) ++ Equal xo xn xl :: aft')
+            with ([Equal po pn pl; Insert to tn tl; Equal xo xn xl] ++ aft') in Hz.
+          eapply LInv_local; [|exact Hz]. apply local_slide_up_grow; try lia. exact Hsuf.
+        * change (Equal (po + pl - s) (tn + tl - s) s :: aft) with ([Equal (po + pl - s) (tn + tl - s) s] ++ aft).
+          rewrite zlist_push_ne.
+          eapply LInv_local; [|exact Hz]. apply local_slide_up_new; try lia. exact Hsuf.
+      + rewrite (ZInv_prev_nonempty _ _ _ _ _ _ _ Hz) in Hstep. injection Hstep as <-. exact Hz.
+    - (* Insert / Delete: swap *)
+      cbn [up_step op_tag] in Hstep.
+      fold (swap_pair (Insert to tn tl) (Delete po pl pn)) in Hstep.
+      destruct (swap_pair (Insert to tn tl) (Delete po pl pn)) as [this1 prev1] eqn:Esw.
+      injection Hstep as <-. cbn [zof].
+      unfold ZInv in *. rewrite zlist_cons in Hz.
+      change (zlist (bef', this1, prev1 :: aft)) with (rev bef' ++ [this1; prev1] ++ aft).
+      replace this1 with (fst (swap_pair (Insert to tn tl) (Delete po pl pn))) by (rewrite Esw; reflexivity).
+      replace prev1 with (snd (swap_pair (Insert to tn tl) (Delete po pl pn))) by (rewrite Esw; reflexivity).
+      eapply LInv_local; [apply local_swap_DI; exact Hc|exact Hz].
+    - (* Insert / Insert: merge *)
+      cbn [up_step op_tag grow_right op_new_len] in Hstep. injection Hstep as <-. cbn [zof].
+      unfold ZInv in *. rewrite zlist_cons in Hz.
+      change (zlist (bef', Insert po pn (pl + tl), aft)) with (rev bef' ++ [Insert po pn (pl + tl)] ++ aft).
+      eapply LInv_local; [apply local_merge_II|exact Hz].
+  Qed.
+  Lemma down_bef1_cases X Y p bef :
+    (exists po pn pl bef', bef = Equal po pn pl :: bef' /\
+                           down_bef1 X Y p bef = Equal po pn (pl + p) :: bef') \/
+    down_bef1 X Y p bef = Equal X Y p :: bef.
+  Proof.
+    destruct bef as [|pv bef']; [right; reflexivity|].
+    destruct pv as [po pn pl| | |]; cbn [down_bef1 is_equal_op grow_right]; try (right; reflexivity).
+    left. exists po, pn, pl, bef'. split; reflexivity.
+  Qed.
+
+  (* ---- down_step preserves the invariant ---- *)
+  Lemma down_step_inv m D I z r :
+    compat m -> ZInv m D I z -> down_step cmp repair z = Ok r -> ZInv m D I (zof r).
+  Proof.
+    intros Hc Hz Hstep. destruct z as [[bef this] aft].
+    destruct aft as [|next aft']; [cbn [down_step] in Hstep; injection Hstep as <-; exact Hz|].
+    destruct this as [to tn tl|to tl tn|to tn tl|to tol tn tnl];
+      [cbn [down_step op_tag] in Hstep; discriminate| | |exfalso; eapply ZInv_Replace_this; exact Hz];
+      (destruct next as [xo xn xl|xo xl xn|xo xn xl|xo xol xn xnl];
+       [| | |exfalso; eapply ZInv_Replace_next; exact Hz]).
+    - (* Delete / Equal: never slides *)
+      rewrite down_step_del_eq in Hstep. rewrite (ZInv_next_nonempty _ _ _ _ _ _ _ Hz) in Hstep.
+      injection Hstep as <-. exact Hz.
+    - (* Delete / Delete: merge *)
+      cbn [down_step op_tag grow_right op_old_len] in Hstep. injection Hstep as <-. cbn [zof].
+      unfold ZInv in *.
+      change (zlist (bef, Delete to tl tn, Delete xo xl xn :: aft'))
+        with (rev bef ++ [Delete to tl tn; Delete xo xl xn] ++ aft') in Hz.
+      change (zlist (bef, Delete to (tl + xl) tn, aft')) with (rev bef ++ [Delete to (tl + xl) tn] ++ aft').
+      eapply LInv_local; [apply local_merge_DD|exact Hz].
+    - (* Delete / Insert: swap *)
+      cbn [down_step op_tag] in Hstep.
+      fold (swap_pair (Insert xo xn xl) (Delete to tl tn)) in Hstep.
+      destruct (swap_pair (Insert xo xn xl) (Delete to tl tn)) as [next1 this1] eqn:Esw.
+      injection Hstep as <-. cbn [zof].
+      unfold ZInv in *. rewrite zlist_cons.
+      change (zlist (bef, Delete to tl tn, Insert xo xn xl :: aft'))
+        with (rev bef ++ [Delete to tl tn; Insert xo xn xl] ++ aft') in Hz.
+      replace next1 with (fst (swap_pair (Insert xo xn xl) (Delete to tl tn))) by (rewrite Esw; reflexivity).
+      replace this1 with (snd (swap_pair (Insert xo xn xl) (Delete to tl tn))) by (rewrite Esw; reflexivity).
+      eapply LInv_local; [apply local_swap_DI; exact Hc|exact Hz].
+    - (* Insert / Equal: slide *)
+      rewrite down_step_ins_eq in Hstep.
+      apply bind_ok_inv in Hstep. destruct Hstep as (p & Hp & Hstep).
+      apply common_prefix_len_spec in Hp. destruct Hp as (Hp1 & Hp2 & Hpre & _).
+      destruct (0 <? p) eqn:E0.
+      + apply Nat.ltb_lt in E0.
+        apply bind_ok_inv in Hstep. destruct Hstep as (l' & Hl & Hstep).
+        apply sub_chk_inv in Hl. destruct Hl as [_ ->].
+        injection Hstep as <-. cbn [zof].
+        unfold ZInv in *. rewrite (push_ne_app _ aft').
+        destruct (down_bef1_cases xo tn p bef) as [(po & pn & pl & bef' & -> & ->)| ->].
+        * rewrite zlist_cons in Hz. rewrite zlist_cons.
+          change ((Equal po pn pl :: [Insert to tn tl]) ++ Equal xo xn xl :: aft')
+            with ([Equal po pn pl; Insert to tn tl; Equal xo xn xl] ++ aft') in Hz.
+          change ((Equal po pn (pl + p) :: [Insert (to + p) (tn + p) tl]) ++
+                  push_ne (Equal (xo + p) (xn + p) (xl - p)) [] ++ aft')
+            with ((Equal po pn (pl + p) :: Insert (to + p) (tn + p) tl ::
+                   push_ne (Equal (xo + p) (xn + p) (xl - p)) []) ++ aft').
+          eapply LInv_local; [|exact Hz]. apply local_slide_down_grow; try lia. exact Hpre.
+        * rewrite zlist_cons.
+          change (zlist (bef, Insert to tn tl, Equal xo xn xl :: aft'))
+            with (rev bef ++ [Insert to tn tl; Equal xo xn xl] ++ aft') in Hz.
+          change ((Equal xo tn p :: [Insert (to + p) (tn + p) tl]) ++
+                  push_ne (Equal (xo + p) (xn + p) (xl - p)) [] ++ aft')
+            with ((Equal xo tn p :: Insert (to + p) (tn + p) tl ::
+                   push_ne (Equal (xo + p) (xn + p) (xl - p)) []) ++ aft').
+          eapply LInv_local; [|exact Hz]. apply local_slide_down_new; try lia. exact Hpre.
+      + rewrite (ZInv_next_nonempty _ _ _ _ _ _ _ Hz) in Hstep. injection Hstep as <-. exact Hz.
+    - (* Insert / Delete: swap *)
+      cbn [down_step op_tag] in Hstep.
+      fold (swap_pair (Delete xo xl xn) (Insert to tn tl)) in Hstep.
+      destruct (swap_pair (Delete xo xl xn) (Insert to tn tl)) as [next1 this1] eqn:Esw.
+      injection Hstep as <-. cbn [zof].
+      unfold ZInv in *. rewrite zlist_cons.
+      change (zlist (bef, Insert to tn tl, Delete xo xl xn :: aft'))
+        with (rev bef ++ [Insert to tn tl; Delete xo xl xn] ++ aft') in Hz.
+      replace next1 with (fst (swap_pair (Delete xo xl xn) (Insert to tn tl))) by (rewrite Esw; reflexivity).
+      replace this1 with (snd (swap_pair (Delete xo xl xn) (Insert to tn tl))) by (rewrite Esw; reflexivity).
+      eapply LInv_local; [apply local_swap_ID; exact Hc|exact Hz].
+    - (* Insert / Insert: merge *)
+      cbn [down_step op_tag grow_right op_new_len] in Hstep. injection Hstep as <-. cbn [zof].
+      unfold ZInv in *.
+      change (zlist (bef, Insert to tn tl, Insert xo xn xl :: aft'))
+        with (rev bef ++ [Insert to tn tl; Insert xo xn xl] ++ aft') in Hz.
+      change (zlist (bef, Insert to tn (tl + xl), aft')) with (rev bef ++ [Insert to tn (tl + xl)] ++ aft').
+      eapply LInv_local; [apply local_merge_II|exact Hz].
+  Qed.
+  (* ---- lifting to the loops ---- *)
+  Lemma run_steps_inv (P : zipper -> Prop) step :
+    (forall z r, P z -> step z = Ok r -> P (zof r)) ->
+    forall fuel z z', P z -> run_steps step fuel z = Ok z' -> P z'.
+  Proof.
+    intros Hstep. induction fuel as [|fuel IH]; intros z z' Hz H; cbn [run_steps] in H; [discriminate|].
+    apply bind_ok_inv in H. destruct H as (r & Hr & H).
+    specialize (Hstep _ _ Hz Hr). destruct r as [z1|z1]; cbn [zof] in Hstep; cbn beta iota in H.
+    - eapply IH; [exact Hstep|exact H].
+    - injection H as <-. exact Hstep.
+  Qed.
+
+  Lemma shift_up_inv m D I z z' :
+    compat m -> ZInv m D I z -> shift_up cmp repair z = Ok z' -> ZInv m D I z'.
+  Proof.
+    intros Hc Hz H. unfold shift_up in H.
+    eapply (run_steps_inv (ZInv m D I)); [|exact Hz|exact H].
+    intros z0 r Hz0 Hr. eapply up_step_inv; eassumption.
+  Qed.
+
+  Lemma shift_down_inv m D I z z' :
+    compat m -> ZInv m D I z -> shift_down cmp repair z = Ok z' -> ZInv m D I z'.
+  Proof.
+    intros Hc Hz H. unfold shift_down in H.
+    eapply (run_steps_inv (ZInv m D I)); [|exact Hz|exact H].
+    intros z0 r Hz0 Hr. eapply down_step_inv; eassumption.
+  Qed.
+
+  Definition tag_match (t : tag) (x : op) : bool :=
+    match t, op_tag x with
+    | TDelete, TDelete | TInsert, TInsert => true
+    | _, _ => false
+    end.
+
+  Lemma pass_unfold t fuel bef this aft :
+    pass cmp repair t (S fuel) (bef, this, aft) =
+    do z1 <- (if tag_match t this
+              then (do zu <- shift_up cmp repair (bef, this, aft); shift_down cmp repair zu)
+              else Ok (bef, this, aft));
+    match zaft z1 with
+    | [] => Ok (rev (zthis z1 :: zbef z1))
+    | nx :: aft' => pass cmp repair t fuel (zthis z1 :: zbef z1, nx, aft')
+    end.
+  Proof.
+    cbn [pass]. unfold tag_match.
+    destruct (if match t with TDelete => match op_tag this with TDelete => true | _ => false end
+                            | TInsert => match op_tag this with TInsert => true | _ => false end
+                            | _ => false end
+              then _ else _) as [[[b1 t1] a1]| |]; reflexivity.
+  Qed.
+
+  Lemma zlist_advance bef this nx aft' : zlist (this :: bef, nx, aft') = zlist (bef, this, nx :: aft').
+  Proof. cbn [zlist rev]. rewrite <- app_assoc. reflexivity. Qed.
+
+  Lemma zlist_end bef this : rev (this :: bef) = zlist (bef, this, []).
+  Proof. reflexivity. Qed.
+
+  Lemma pass_inv m D I t :
+    compat m ->
+    forall fuel z l', ZInv m D I z -> pass cmp repair t fuel z = Ok l' -> LInv m D I l'.
+  Proof.
+    intros Hc. induction fuel as [|fuel IH]; intros z l' Hz H; [discriminate|].
+    destruct z as [[bef this] aft]. rewrite pass_unfold in H.
+    apply bind_ok_inv in H. destruct H as (z1 & Hz1 & H).
+    assert (Hinv1 : ZInv m D I z1).
+    { destruct (tag_match t this).
+      - apply bind_ok_inv in Hz1. destruct Hz1 as (zu & Hu & Hd).
+        eapply shift_down_inv; [exact Hc| |exact Hd]. eapply shift_up_inv; eassumption.
+      - injection Hz1 as <-. exact Hz. }
+    destruct z1 as [[b1 t1] a1]. cbn [zaft zthis zbef] in H.
+    destruct a1 as [|nx a1'].
+    - injection H as <-. exact Hinv1.
+    - eapply IH; [|exact H]. unfold ZInv. rewrite zlist_advance. exact Hinv1.
+  Qed.
+
+  Lemma run_pass_inv m D I t l l' :
+    compat m -> LInv m D I l -> run_pass cmp repair t l = Ok l' -> LInv m D I l'.
+  Proof.
+    intros Hc Hl H. destruct l as [|x r]; cbn [run_pass] in H.
+    - injection H as <-. exact Hl.
+    - eapply pass_inv; [exact Hc| |exact H]. exact Hl.
+  Qed.
+
+  Lemma cleanup_inv m D I l l' :
+    compat m -> LInv m D I l -> cleanup_diff_ops cmp repair l = Ok l' -> LInv m D I l'.
+  Proof.
+    intros Hc Hl H. unfold cleanup_diff_ops in H.
+    apply bind_ok_inv in H. destruct H as (l1 & H1 & H2).
+    eapply run_pass_inv; [exact Hc| |exact H2]. eapply run_pass_inv; eassumption.
+  Qed.
 End Zipper.
+
+(* ------------------------------------------------------------------ *)
+(* P1 / P2                                                             *)
+(* ------------------------------------------------------------------ *)
+
+Lemma compat_loose repair : compat repair Loose.
+Proof. split; discriminate. Qed.
+Lemma compat_exact : compat true Exact.
+Proof. split; [reflexivity|discriminate]. Qed.
+Lemma compat_low : compat false Low.
+Proof. split; [discriminate|reflexivity]. Qed.
+
+Lemma LInv_of_walk cmp os oe ns ne b m ex ops :
+  OpsWalk cmp ex oe ne os ns ops -> Forall NonEmptyOp ops -> Forall NoRep ops ->
+  (m = Exact -> ex = true) -> (m = Low -> InsLow b ops) ->
+  LInv cmp os oe ns ne b m (dtot ops) (itot ops) ops.
+Proof.
+  intros Hw Hne Hnr Hex Hlow.
+  destruct (walk_to_seg cmp m ex oe ne os ns ops Hw Hnr Hex b Hlow) as (Hs & Ho & Hn).
+  unfold LInv, Valid. auto.
+Qed.
+
+Lemma walk_of_LInv cmp os oe ns ne b m D I ops :
+  LInv cmp os oe ns ne b m D I ops ->
+  OpsWalk cmp (exactb m) oe ne os ns ops /\ Forall NonEmptyOp ops /\ Forall NoRep ops /\
+  dtot ops = D /\ itot ops = I.
+Proof.
+  intros ((Hs & Ho & Hn) & Hne & Hd & Hi).
+  repeat split; auto.
+  - eapply seg_to_walk; eassumption.
+  - eapply Seg_NoRep; exact Hs.
+Qed.
+
+(* C10: Compact preserves meaning and cost of any valid script *)
+Theorem compact_preserves_loose cmp repair os oe ns ne ops ops' :
+  OpsWalk cmp false oe ne os ns ops ->
+  Forall NonEmptyOp ops ->
+  Forall (fun x => op_tag x <> TReplace) ops ->
+  cleanup_diff_ops cmp repair ops = Ok ops' ->
+  OpsWalk cmp false oe ne os ns ops' /\
+  Forall NonEmptyOp ops' /\
+  Forall (fun x => op_tag x <> TReplace) ops' /\
+  deleted ops' = deleted ops /\ inserted ops' = inserted ops /\ equal_total ops' = equal_total ops.
+Proof.
+  intros Hw Hne Hnr Hc.
+  assert (Hl : LInv cmp os oe ns ne 0 Loose (dtot ops) (itot ops) ops).
+  { eapply LInv_of_walk; try eassumption; discriminate. }
+  assert (Hl' := cleanup_inv cmp repair os oe ns ne 0 Loose _ _ _ _ (compat_loose repair) Hl Hc).
+  destruct Hl as ((_ & Ho & _) & _).
+  destruct (walk_of_LInv _ _ _ _ _ _ _ _ _ _ Hl') as (Hw' & Hne' & Hnr' & Hd & Hi).
+  destruct Hl' as ((_ & Ho' & _) & _).
+  rewrite (deleted_dtot ops), (deleted_dtot ops'), (inserted_itot ops), (inserted_itot ops'),
+    (equal_total_etot ops), (equal_total_etot ops').
+  repeat split; auto.
+  rewrite (otot_split ops) in Ho. rewrite (otot_split ops') in Ho'. lia.
+Qed.
+
+(* C11 (compaction part): with the repair switch every carried index stays exact *)
+Theorem compact_preserves_exact cmp os oe ns ne ops ops' :
+  OpsWalk cmp true oe ne os ns ops ->
+  Forall NonEmptyOp ops ->
+  Forall (fun x => op_tag x <> TReplace) ops ->
+  cleanup_diff_ops cmp true ops = Ok ops' ->
+  OpsWalk cmp true oe ne os ns ops'.
+Proof.
+  intros Hw Hne Hnr Hc.
+  assert (Hl : LInv cmp os oe ns ne 0 Exact (dtot ops) (itot ops) ops).
+  { eapply LInv_of_walk; try eassumption; [reflexivity|discriminate]. }
+  assert (Hl' := cleanup_inv cmp true os oe ns ne 0 Exact _ _ _ _ compat_exact Hl Hc).
+  apply walk_of_LInv in Hl'. tauto.
+Qed.
